@@ -78,6 +78,8 @@ pub struct BindState {
     pub gen_nodes: Vec<Tag>,
     /// round in which the closure last ran (exactly known from the log)
     pub last_closure_round: Round,
+    /// argument of the latest closure run
+    pub last_arg: Option<Val>,
 }
 
 #[derive(Clone, Debug)]
@@ -236,7 +238,8 @@ impl Model {
             cache: Cache::Never,
             run: (NEVER, NEVER),
             chg: (NEVER, NEVER),
-            var: init_var.map(|v| VarState { contents: v, set_round: self.round, pending: None }),
+            // a variable created by a bind closure carries its initial value in `captured`
+            var: init_var.or_else(|| if d.kind == MKind::Var { d.captured.clone() } else { None }).map(|v| VarState { contents: v, set_round: self.round, pending: None }),
             bind: d.arms.as_ref().map(|a| BindState {
                 arms: a.clone(),
                 gen: None,
@@ -245,6 +248,7 @@ impl Model {
                 closure_run: (NEVER, NEVER),
                 gen_nodes: vec![],
                 last_closure_round: NEVER,
+                last_arg: None,
             }),
             inner_tainted: tainted,
             grabbed: false,
@@ -314,7 +318,8 @@ impl Model {
     }
     fn eval_inner(&mut self, n: &MNode) -> Result<Val, ()> {
         Ok(match &n.kind {
-            MKind::Var => self.call_contents.get(&n.tag).cloned().ok_or(())?,
+            // (a variable created during the round was not there at the call: it holds its initial value)
+            MKind::Var => self.call_contents.get(&n.tag).cloned().or_else(|| n.captured.clone()).ok_or(())?,
             MKind::Const(v) => v.clone(),
             MKind::Map(k) | MKind::Writer(k) => f1(*k, &self.eval(n.inputs[0])?),
             MKind::MapCap(k) => f1c(*k, &self.eval(n.inputs[0])?, n.captured.as_ref().unwrap()),
@@ -339,7 +344,17 @@ impl Model {
                 let lv = self.eval(n.inputs[0])?;
                 let arms = n.bind.as_ref().unwrap().arms.clone();
                 let arm = &arms[pick_arm(&lv, arms.len())];
-                self.eval_expr(arm, &lv)?
+                if arm.contains_newvar() {
+                    // the arm creates state (a variable per run of the closure): its value is that of
+                    // the node the latest run returned, provided that run saw the current lhs value
+                    let b = n.bind.as_ref().unwrap();
+                    match (&b.last_arg, b.rhs) {
+                        (Some(a), Some(rhs)) if *a == lv && self.has(rhs) => self.eval(rhs)?,
+                        _ => return Err(()),
+                    }
+                } else {
+                    self.eval_expr(arm, &lv)?
+                }
             }
         })
     }
@@ -382,6 +397,7 @@ impl Model {
             }
             Expr::Cut(_, a) => self.eval_expr(a, lhs)?,
             Expr::Discard(_, b) => self.eval_expr(b, lhs)?,
+            Expr::NewVar(_) => return Err(()),
             Expr::Bind(l, arms) => {
                 let lv = self.eval_expr(l, lhs)?;
                 let arm = &arms[pick_arm(&lv, arms.len())];
@@ -626,10 +642,10 @@ impl Model {
                 self.old_gen_this_round.push(g);
                 self.invalidate(g, false);
             }
-            let (gen, rhs) = {
+            let (gen, rhs, arg) = {
                 let v = &self.bind_runs[&b];
                 let last = v.last().unwrap();
-                (last.0, last.2)
+                (last.0, last.2, last.1.clone())
             };
             let new_nodes: Vec<Tag> = self
                 .nodes
@@ -645,6 +661,7 @@ impl Model {
                 bs.rhs = rhs;
             }
             bs.last_closure_round = r;
+            bs.last_arg = Some(arg);
         }
         // C03 speaks about binds that are needed throughout the stabilise in which their
         // left-hand side changes. A bind that left the cone in the middle of it (it hangs
